@@ -196,6 +196,7 @@ type result struct {
 	Succ        []succ
 	Transitions int
 	Viol        []viol
+	Cut         int // successors not run after three hangs in the task (each costs h.Patience)
 }
 
 func pathString(c cfg, p []event, al [][]string) string {
@@ -300,6 +301,7 @@ func worker(tb []byte, progress func()) []byte {
 	rt.CurMode = rt.Free
 	al := alphabet()
 	var res result
+	hangs := 0
 	for pi, p := range t.Paths {
 		progress()
 		_, budget, ok := run(t.Cfg, p, al, nil)
@@ -319,7 +321,17 @@ func worker(tb []byte, progress func()) []byte {
 			for cmd := range al {
 				e := event{ci, cmd}
 				full := append(append([]event{}, p...), e)
-				m, b2, ok := run(t.Cfg, full, al, func(v viol) { res.Viol = append(res.Viol, v) })
+				if hangs >= 3 {
+					res.Cut++
+					continue
+				}
+				progress()
+				m, b2, ok := run(t.Cfg, full, al, func(v viol) {
+					if v.Kind == "hang" {
+						hangs++
+					}
+					res.Viol = append(res.Viol, v)
+				})
 				res.Transitions++
 				if ok {
 					res.Succ = append(res.Succ, succ{Parent: pi, Ev: e, Hash: m.key(b2)})
@@ -344,7 +356,7 @@ func main() {
 	}
 	rep := ev.NewReport("C20", "model_checking")
 	al := alphabet()
-	p := &pool.Pool{Handler: "dbmc", N: 16, Timeout: 60 * time.Second, MemMB: 4096}
+	p := &pool.Pool{Handler: "dbmc", N: 16, Timeout: 4 * time.Minute, MemMB: 4096}
 	deadline := time.Now().Add(budgetFor(tier))
 	states, transitions := 0, 0
 	exhaustive := true
@@ -394,6 +406,9 @@ func main() {
 				var r result
 				json.Unmarshal(out, &r)
 				ctr += r.Transitions
+				if r.Cut > 0 {
+					exhaustive = false
+				}
 				for _, v := range r.Viol {
 					rep.Add(&ev.Violation{Engine: "dbmc", Kind: v.Kind, Cmd: v.Cmd, Shape: v.Shape, Detail: v.Detail,
 						Replay: map[string]interface{}{"engine": "dbmc", "cfg": c, "path": v.Path, "readable": pathString(c, v.Path, al)}})
